@@ -12,7 +12,42 @@ QUIET = ('cancelled', 'closed', 'volclosed', 'genexit', 'signal')
 
 
 @st.composite
+def replaced_abort_programs(draw):
+    """A child fails while the body of its scope sits in an inner until-block whose notification fires in that very time
+    step, and the body's way out leads through asynchronous (timeless) clean-up: the abort of the scope must not get lost
+    behind the inner block's own interrupt - the scope ends at the time of the failure, with that failure."""
+    d = draw(st.sampled_from([0.5, 1, 2]))
+    kind = draw(st.sampled_from(['done', 'done', 'flag', 'flag', 'time_eq', 'delay', 'time_ge']))
+    notif = {'done': ['done', 'f'], 'flag': ['flag', 0], 'time_eq': ['time_eq', d], 'delay': ['delay', d], 'time_ge': ['time_ge', d]}[kind]
+    inner = {'op': 'cleanup', 'body': [{'op': 'sleep', 'd': draw(st.sampled_from([6, 9]))}],
+             'final': [{'op': 'instant'} for _ in range(draw(st.integers(1, 3)))]}
+    depth = draw(st.integers(1, 2))
+    body = [inner]
+    for i in range(depth):
+        body = [{'op': 'until', 'name': 'U%d' % i, 'notif': notif if i == 0 else ['flag', 1], 'catch': True, 'children': [], 'body': body},
+                {'op': 'sleep', 'd': 1}, {'op': 'mark', 'v': 'went on'}]
+        if draw(st.integers(0, 3)) == 0:
+            body = [{'op': 'cleanup', 'body': body, 'final': [{'op': 'instant'}]}]
+    kids = [{'name': 'f', 'steps': [{'op': 'sleep', 'd': d}] + [{'op': 'instant'} for _ in range(draw(st.integers(0, 2)))] +
+             [{'op': 'raise', 'eid': 1, 'cls': draw(st.sampled_from(['E', 'K', 'A']))}]}]
+    if draw(st.booleans()):
+        kids.append({'name': 'g', 'steps': [{'op': 'sleep', 'd': draw(st.sampled_from([0.5, 3]))}, {'op': 'sleep', 'd': 4}]})
+    if draw(st.booleans()):
+        kids.reverse()
+    ctl = [{'op': 'at_eq', 't': d}] + [{'op': 'instant'} for _ in range(draw(st.integers(0, 3)))] + [
+        {'op': 'set_flag', 'i': 0, 'v': True}, {'op': 'set_flag', 'i': 1, 'v': True}]
+    roots = [{'name': 'r', 'steps': [{'op': 'scope', 'name': 'S', 'catch': True, 'catch_priv': True, 'children': kids, 'body': body},
+                                     {'op': 'sleep', 'd': 1}]},
+             {'name': 'ctl', 'steps': ctl}]
+    if draw(st.booleans()):
+        roots.reverse()
+    return {'prog': {'start': 0, 'objs': {'flags': 2, 'locks': 1, 'queues': 1}, 'roots': roots}, 'targets': ['f'], 'faults': []}
+
+
+@st.composite
 def cases(draw, tier):
+    if draw(st.integers(0, 11)) == 0:
+        return draw(replaced_abort_programs())
     c = draw(scope_programs(tier, fail=5, volatile=2, until=2, late_spawn=1, priv=2, finally_spawn=0,
                             nocatch=2, uncaught_blocks=5, finally_raise=2, sync=2, near_dates=2, catch_priv=5))
     if tier == 'thorough' and draw(st.integers(0, 3)) == 0:
